@@ -191,3 +191,88 @@ def run_f2(out, eng):
 
 def _objs(v):
     return []
+
+
+def run_transform(out, eng):
+    """C09-F2(iii): the generic rebuild in `SymbolicValueData::transform` (used by folding for every node the folder
+    does not rewrite): the same variant comes back and every child field holds the transformed child of the SAME field."""
+    from . import sizes
+    f = None
+    for n, fn in eng.fns.items():
+        if n.endswith(">::transform") and "src/vm/value/mod.rs" in n and fn.args and "SymbolicValueData" in fn.args[0][1]:
+            f = fn
+    if f is None:
+        out.inconc("F2.transform: SymbolicValueData::transform not found")
+        return
+    out.functions += ["vm::value::SymbolicValueData::transform (generic rebuild, all 66 variants)", "vm::value::PackedSpan::transform"]
+
+    def call_param(ctx, a, ty, c):
+        return none(ty)          # the transformation declines: the generic rebuild runs
+    extra = summaries() + sizes.extra_summaries() + [(r"^<impl Fn.* as Fn<.*>>::call$", call_param)]
+    # transform_data on children is uninterpreted (summaries()), with a twist: children inside vectors are cells
+    ex = eng.explorer(extra=extra, max_visits=8)
+
+    def body(ctx):
+        cell = Cell(Lazy(ENUM + "<AuxData>", "data"), "data")
+        r = ctx.run_fn(f, [Ref(cell, ()), Obj("fnparam", "impl Fn")])
+        v = cell.v
+        if isinstance(v, Lazy):
+            v = ctx.as_agg(v)
+            cell.v = v
+        ctx.variant_of(v)
+        return r, cell, ctx
+    t0 = time.time()
+    try:
+        paths = ex.explore(body)
+    except Unsupported as e:
+        out.obligation("F2.transform_rebuilds_in_place", "mirsmt", "inconclusive", 0, witness=False, note=str(e))
+        out.inconc("F2.transform: %s" % e)
+        return
+    bad = []
+    seen = set()
+    for p in paths:
+        if p.kind != "return":
+            if p.kind != "panic":
+                out.inconc("F2.transform: path ends with %s %s" % (p.kind, p.msg[:60]))
+            continue
+        r, cell, ctx = p.ret
+        var = cell.v.variant
+        seen.add(var)
+        if isinstance(r, (Lazy, Agg)) and getattr(r, "name", None) == "data" and not (isinstance(r, Agg) and r.fields):
+            continue                     # a clone of the input itself (variants without children)
+        if not (isinstance(r, Agg) and r.variant == var):
+            bad.append((var, "rebuilt as %s" % getattr(r, "variant", r)))
+            continue
+        for idx, child in r.fields.items():
+            want = "data.%s.%d" % (var, idx)
+            if isinstance(child, Obj) and child.kind == "transformed":
+                if child.src != want:
+                    bad.append((var, "field %s rebuilt from %s" % (field_name(eng.src, var, idx), child.src)))
+            elif isinstance(child, Obj) and child.kind == "vec":
+                for k, item in enumerate(child.pushed):
+                    src = None
+                    if isinstance(item, Obj) and item.kind == "transformed":
+                        src = item.src
+                    elif isinstance(item, Agg):         # PackedSpan { offset, size, value }
+                        val = item.fields.get(2)
+                        src = val.src if isinstance(val, Obj) and val.kind == "transformed" else None
+                        src = src.rsplit(".", 1)[0] if src and src.endswith(".2") else src
+                    if src != "%s[%d]" % (want, k):
+                        bad.append((var, "element %d of %s rebuilt from %s" % (k, field_name(eng.src, var, idx), src)))
+    variants = [v for v, _ in eng.src.variants(ENUM)]
+    missing = [v for v in variants if v not in seen]
+    if missing:
+        out.inconc("F2.transform: variants not explored: %s" % missing[:5])
+    dt = time.time() - t0
+    if not bad:
+        out.obligation("F2.transform_rebuilds_in_place", "mirsmt", "holds", dt, witness=bool(seen), variants=len(seen))
+        return
+    for var, why in bad:
+        confirmed, rep = native.scenario(out, "node_size", {"name": var}) if False else native.scenario(out, "fold_variant", {"name": var})
+        what = "transform of %s: %s" % (var, why)
+        if confirmed:
+            out.obligation("F2.transform.%s" % var, "mirsmt", "violated", dt, witness=True, note=what, replay=rep)
+            out.violation(C.Violation(key="transform:%s" % var, what="F2: " + what, replay={"engine": "mirsmt", "native": rep}))
+        else:
+            out.obligation("F2.transform.%s" % var, "mirsmt", "cex-not-reproduced", dt, witness=False, note=what, replay=rep)
+            out.inconc("F2.transform.%s: %s (not reproduced natively)" % (var, what))
